@@ -2496,6 +2496,21 @@ fn probe_semi_anti_parallel(
     Ok(results)
 }
 
+/// Dictionary keys for a take-gather of `col`: the take indices, except that a
+/// NULL of the build column becomes a NULL KEY. Keeping it as a valid key that
+/// points at a null VALUE made the row look non-null to everything that asks
+/// the keys (`DictionaryArray::is_null`, `key(row)`): the NULL then read as the
+/// empty string when it was grouped on or used as a join key.
+fn dictionary_keys_of_take(take_arr: &UInt32Array, col: &ArrayRef) -> arrow::array::Int32Array {
+    if col.null_count() == 0 {
+        return take_arr.iter().map(|v| v.map(|u| u as i32)).collect();
+    }
+    take_arr
+        .iter()
+        .map(|v| v.filter(|u| col.is_valid(*u as usize)).map(|u| u as i32))
+        .collect()
+}
+
 /// Create a combined batch with a single row pair for filter evaluation
 fn create_single_row_combined_batch(
     build_batches: &[RecordBatch],
@@ -3690,8 +3705,7 @@ fn create_joined_batch(
             .iter()
             .map(|col| {
                 if dict_encode && col.data_type() == &arrow::datatypes::DataType::Utf8 {
-                    let keys: arrow::array::Int32Array =
-                        take_arr.iter().map(|v| v.map(|u| u as i32)).collect();
+                    let keys = dictionary_keys_of_take(&take_arr, col);
                     arrow::array::DictionaryArray::try_new(keys, col.clone())
                         .map(|d| std::sync::Arc::new(d) as ArrayRef)
                         .map_err(Into::into)
@@ -3817,8 +3831,7 @@ fn create_joined_batch_u32(
             .iter()
             .map(|col| {
                 if dict_encode && col.data_type() == &arrow::datatypes::DataType::Utf8 {
-                    let keys: arrow::array::Int32Array =
-                        take_arr.iter().map(|v| v.map(|u| u as i32)).collect();
+                    let keys = dictionary_keys_of_take(&take_arr, col);
                     arrow::array::DictionaryArray::try_new(keys, col.clone())
                         .map(|d| std::sync::Arc::new(d) as ArrayRef)
                         .map_err(Into::into)
@@ -3952,8 +3965,7 @@ fn create_build_only_batch(
             .iter()
             .map(|col| {
                 if dict_encode && col.data_type() == &arrow::datatypes::DataType::Utf8 {
-                    let keys: arrow::array::Int32Array =
-                        take_arr.iter().map(|v| v.map(|u| u as i32)).collect();
+                    let keys = dictionary_keys_of_take(&take_arr, col);
                     arrow::array::DictionaryArray::try_new(keys, col.clone())
                         .map(|d| std::sync::Arc::new(d) as ArrayRef)
                         .map_err(Into::into)
